@@ -190,6 +190,17 @@ def racing_writers(kind="spin"):
     }}
 
 
+def racing_collector_stop():
+    """the step that ends the run completed a collection in the same invocation (its result list starts with the buffer
+    deletion, not with the StopEvent) while another step is writing to the stream on every loop turn."""
+    return {"timeout": None, "steps": {
+        "a": {"accepts": ["Start"], "nw": 1, "body": [{"op": "send", "ty": "A", "n": 1}, {"op": "send", "ty": "B", "n": 1},
+                                                      {"op": "send", "ty": "C", "n": 1}, G, {"op": "none"}]},
+        "c": {"accepts": ["B", "C"], "nw": 1, "body": [G, {"op": "collect", "expected": ["B", "C"]}, {"op": "stop"}]},
+        "w": {"accepts": ["A"], "nw": 1, "returns": ["Stop"], "body": [G, {"op": "spin_publish", "n": 6, "ty": "D"}, {"op": "none"}]},
+    }}
+
+
 def collect_then_wait():
     """c completes a collection and then suspends in wait_for_event in the same invocation: the replay must still see the set."""
     return {"timeout": None, "steps": {
@@ -197,6 +208,17 @@ def collect_then_wait():
         "c": {"accepts": ["A"], "nw": 1,
               "body": [G, {"op": "collect", "expected": ["A", "A"]},
                        {"op": "wait", "ty": "Resp", "wid": "w1", "timeout": None, "wev": True}, {"op": "stop"}]},
+    }}
+
+
+def waiter_shared_input():
+    """x broadcasts one A; p (accepts A) suspends in wait_for_event with a requirement, q (accepts A too) is a plain step:
+    after a serialise/resume the suspended waiter is re-armed -- and q must not see the A a second time."""
+    return {"timeout": None, "steps": {
+        "x": {"accepts": ["Start"], "nw": 1, "body": [{"op": "send", "ty": "A", "n": 1}, G, {"op": "none"}]},
+        "p": {"accepts": ["A"], "nw": 1, "returns": ["Stop"],
+              "body": [G, {"op": "wait", "ty": "Resp", "wid": "wp", "timeout": None, "reqs": {"k": 1}, "wev": False}, {"op": "stop"}]},
+        "q": {"accepts": ["A"], "nw": 1, "body": [G, {"op": "none"}]},
     }}
 
 
@@ -280,6 +302,8 @@ def family(name, quick=True):
         out.append(("pipeline fail", pipeline(fail_until=99, timeout=50), []))
         out.append(("pipeline retry fail", pipeline(retry_max=2, delay=3, fail_until=99, timeout=50), []))
         out.append(("double_stop", double_stop(2), []))
+        out.append(("pipeline ok, second consumer", dict(pipeline(timeout=50), second_consumer=True), []))
+        out.append(("double_stop, second consumer", dict(double_stop(2), second_consumer=True), []))
         pr = pipeline(retry_max=2, delay=0, fail_until=99)
         pr["steps"]["b"]["retry"] = {"raising": True, "max": 2, "wait": ["fixed", 0]}
         out.append(("retry policy raises", pr, []))
@@ -287,6 +311,7 @@ def family(name, quick=True):
     elif name == "racing":
         out.append(("racing_writers(spin)", racing_writers("spin"), []))
         out.append(("racing_writers(cancel)", racing_writers("cancel"), []))
+        out.append(("racing_collector_stop", racing_collector_stop(), []))
         out.append(("fanout", fanout(2, 3, 2, 0, 1, timeout=20), []))
     elif name == "retry":
         for n in ((0, 1, 2) if quick else (0, 1, 2, 3)):
